@@ -307,3 +307,37 @@ def concretise(I, f):
         return F.Not(concretise(I, f[1]))
     parts = [concretise(I, g) for g in f[1]]
     return F.And(*parts) if f[0] == "and" else F.Or(*parts)
+
+
+_OWN_CACHE = {}
+
+
+def known_owners(crate, fn):
+    """The functions the rules know (refs/known_fns.json) on whose behalf `fn` runs: `fn` itself when it is known,
+    otherwise every known function that reaches it through helpers introduced by later changes only.  A who-may-X rule
+    phrased over known functions then survives the extraction of a shared helper."""
+    from interp import known_fns
+    import c10
+    key = (id(crate), fn)
+    if key in _OWN_CACHE:
+        return _OWN_CACHE[key]
+    kn = known_fns(crate.name)
+    gk = ("graph", id(crate))
+    if gk not in _OWN_CACHE:
+        _OWN_CACHE[gk] = c10.call_graph(crate)[0]
+    G = _OWN_CACHE[gk]
+    owners, todo, seen = set(), [fn.split("::{closure")[0]], set()
+    while todo:
+        f = todo.pop()
+        if f in seen:
+            continue
+        seen.add(f)
+        if f in kn:
+            owners.add(f)
+            continue
+        callers = {c.split("::{closure")[0] for c, es in G.items() if f in es and c.split("::{closure")[0] != f}
+        if not callers:
+            owners.add(f)
+        todo.extend(callers)
+    _OWN_CACHE[key] = owners
+    return owners
